@@ -149,6 +149,28 @@ static int merge_function(const char *f, char **tok, int n)
     free_kf(&dest); free_kf(&uf); free_kf(&ef);
     return 1;
   }
+  if (!strcmp(f, "mergeFiles")) {
+    /* econf_mergeFiles itself on the same two objects */
+    econf_file uf, ef; build_kf(&uf, tok[1]); build_kf(&ef, tok[2]);
+    econf_file *merged = NULL;
+    econf_err e = econf_mergeFiles(&merged, &uf, &ef);
+    printf("%s E%d", f, (int)e);
+    if (merged) {
+      printf(" %zu %zu %d %d %s e", merged->length, merged->alloc_length, (int)merged->delimiter, (int)merged->comment, merged->path ? "path" : "-");
+      for (size_t i = 0; i < merged->length; i++) {
+        int at = -1;
+        for (int k = 0; k < merged->group_count; k++) if (merged->groups[k] == merged->file_entry[i].group) at = k;
+        if (i) putchar(',');
+        printf("%d:", at); put_hex(merged->file_entry[i].key); putchar(':'); put_opt(merged->file_entry[i].value);
+        printf(":%llu:%d", (unsigned long long)merged->file_entry[i].line_number, (int)merged->file_entry[i].quotes);
+      }
+      put_groups(merged);
+      econf_freeFile(merged);
+    }
+    printf("\n");
+    free_kf(&uf); free_kf(&ef);
+    return 1;
+  }
   return 0;
 }
 
